@@ -18,7 +18,9 @@ LEVEL = "fault_enumeration"
 RULE = ("bodies of boundary lengths (0, 1, 243..245, 487..489, k*244+-1, random <= 64 KiB, the 32767-block maximum in "
         "thorough) with header fields over their full ranges, split/encoded/decoded and compared with the reference "
         "block codec; 2-4 interleaved transactions reassembled by a real SecsIProtocol; every header/data/checksum byte "
-        "position x masks {0x01,0x80,0xFF,random} of encoded blocks with data lengths 0,1,243,244 corrupted (enumerated); "
+        "position x masks {single bits, 0xFF, the mask that zeroes the byte, random} of encoded blocks with data lengths 0,1,243,244 "
+        "and of a block whose checksum is 0x0081 (enumerated); 1-3 bytes altered at once with the checksum forced to 0000 / FFFF / "
+        "swapped / one byte zero / sum of data only (judged by the reference parser); system bytes reused after a completed message; "
         "distinct by (oracle, header fields, body hash | corruption position and mask); all are non-trivial")
 ASSUMPTIONS = ["lib/wire.py implements the SEMI E4 block layout and checksum", "corruption of the length byte is outside the "
                "statement and only required not to yield an accepted block", "reassembly is fed in order within a message"]
@@ -29,7 +31,7 @@ LEVEL_NOTE = "Trusts lib/wire.py; body contents sampled; multi-byte corruptions 
 TECHNIQUE = "exhaustive single-byte fault injection + runtime differential oracle (reference block codec)"
 SHARDS = {"quick": 8, "thorough": 16}
 TIMEOUT = {"quick": 300, "thorough": 3000}
-FLOORS = {"oracle.split": 300, "oracle.block_codec": 1000, "oracle.corruption": 2000, "oracle.reassembly": 20,
+FLOORS = {"oracle.corruption_multi": 1000, "reassembly.system_bytes_reused_after_completion": 10, "oracle.split": 300, "oracle.block_codec": 1000, "oracle.corruption": 2000, "oracle.reassembly": 20,
           "reassembly.interleaved_messages": 20}
 EXHAUSTIVE_ALL = False
 
